@@ -138,8 +138,8 @@ def evaluate(ctx, recs, outs, env, stats):
 
 def read_jobs(ctx, rrecs):
     """error injection into the non-mutating calls on the object root and the staged object, from the lock to the unlock.
-    quick: in the fully enumerated scenarios every third call, but always the listing of an object root (find_files) and
-    the stat calls below the staged head content directory (rm_orphaned_files); a fifth elsewhere"""
+    quick: in the fully enumerated scenarios every fourth call, but always the listing of an object root (find_files) and
+    the stat calls below the staged head content directory (rm_orphaned_files); a sixth elsewhere"""
     jobs = []
     n = 0
     for r in rrecs:
@@ -153,7 +153,7 @@ def read_jobs(ctx, rrecs):
             pinned = full and ((rp["name"] == "getdents64" and rp["path"] in roots)
                                or (rp["name"] in ("statx", "newfstatat", "stat", "lstat") and "/content" in rp["path"][len(roots[1]):]
                                    and rp["path"].startswith(roots[1])))
-            if not ctx.quick() or pinned or (full and n % 3 == 0) or (not full and n % 5 == 0):
+            if not ctx.quick() or pinned or (full and n % 4 == 0) or (not full and n % 6 == 0):
                 jobs.append((r, "F", rp["next"], ["EIO", "EACCES"][(n // 2) % 2], rp["point"]))
     return jobs
 
